@@ -20,14 +20,47 @@ func uCells(s uSchema, tag string, key int64) []driver.Value {
 		if s.isPK(k) {
 			c[k] = key + int64(k) // distinct concrete key parts
 		} else {
-			c[k] = vrt.Int64(tag + "." + n)
+			switch s.kind(k) {
+			case "varchar":
+				if vrt.Bool(tag + "." + n + ".null") {
+					c[k] = nil
+				} else {
+					str := vrt.String(tag+"."+n, 1)
+					vrt.Assume(str[0]-0x20 < 0x5f) // printable ASCII
+					c[k] = str
+				}
+			case "nullint":
+				if vrt.Bool(tag + "." + n + ".null") {
+					c[k] = nil
+				} else {
+					c[k] = vrt.Int64(tag + "." + n)
+				}
+			case "decimal":
+				c[k] = []string{"12.50", "0.10", "-3.00"}[vrt.Choice(tag+"."+n, 3)]
+			default:
+				c[k] = vrt.Int64(tag + "." + n)
+			}
 		}
 	}
 	return c
 }
 
 func VerifC09Foreign() {
-	s := uSchemas[vrt.Choice("schema", len(uSchemas))]
+	c09Foreign(uSchemas[vrt.Choice("schema", len(uSchemas))], "")
+}
+
+// VerifC09Typed: the same three-way comparison over a nullable VARCHAR and a
+// nullable BIGINT column (NULL or a value, before / after / now).
+func VerifC09Typed() {
+	c09Foreign(uTyped, "typed-")
+}
+
+// VerifC09Decimal: ... and over a DECIMAL column (three sample values).
+func VerifC09Decimal() {
+	c09Foreign(uTypedDecimal, "decimal-")
+}
+
+func c09Foreign(s uSchema, prefix string) {
 	kind := vrt.Choice("kind", 3)
 	xid, branchID := vrt.String("xid", 2), int64(1+vrt.Choice("branch", 2))
 	before := uCells(s, "before", 10)
@@ -44,7 +77,9 @@ func VerifC09Foreign() {
 	}
 	w := uSetup(s, &undo.BranchUndoLog{Xid: xid, BranchID: uint64(branchID), Logs: []undo.SQLUndoLog{log}}, xid, branchID)
 	w.addUndoLog()
-	w.d.scanKind = vrt.Choice("column.scan.kind", 3)
+	if prefix == "" {
+		w.d.scanKind = vrt.Choice("column.scan.kind", 3)
+	}
 
 	// the row as it is now: any foreign modification since the local commit
 	curPresent := vrt.Bool("current.present")
@@ -75,7 +110,7 @@ func VerifC09Foreign() {
 		vrt.Assume(!uSameCells(before, after))
 	}
 	st, err, panicked := w.rollback()
-	tag := uKindNames[kind]
+	tag := prefix + uKindNames[kind]
 	vrt.Reach("c09/" + tag)
 	vrt.Assert(!panicked, "c09/no-panic/"+tag)
 	vrt.Observe("stub.bad", w.d.bad)
